@@ -61,7 +61,9 @@ def lint(project, source, filename=None, debug=False):
             #                    location[0], location[1], flow))
             if sname.name == 'locals' and getattr(sname, 'location', None) == (0, 0):
                 for n in itervalues(flow.names_at(location)):
-                    if getattr(n, 'scope', None) is flow.scope:
+                    # (a name bound in several branches has one scope per alternative)
+                    alts = n.alt_names if type(n) is MultiName else [n]
+                    if any(getattr(alt, 'scope', None) is flow.scope for alt in alts):
                         use_name(n)
             else:
                 # a dotted import may reach the read through several branches
